@@ -183,8 +183,19 @@ pub fn c01_run(run: &Run) {
         },
     );
     // additivity over a sub-alphabet with mixed representatives
+    // sub-alphabet for the sums: 0, 1, 2, 3, r-1, lambda (P and lambda*P share y: a sum the adder can get wrong on
+    // its own terms), (r-1)/2, then the following members of K in the thorough tier
     let kk: usize = run.tier.pick(7, 12);
-    let sub: Vec<usize> = (0..ks.len()).take(kk).collect();
+    let lam_ix = ks.iter().position(|k| k == &consts().lambda).unwrap_or(5);
+    let mut sub: Vec<usize> = vec![0, 1, 2, 3, 4, lam_ix, 6];
+    for i in 0..ks.len() {
+        if sub.len() >= kk {
+            break;
+        }
+        if !sub.contains(&i) {
+            sub.push(i);
+        }
+    }
     let ns = sub.len() as u64;
     let dims2 = [ns, ns, ns, rp2, 3];
     run.grid(
